@@ -440,7 +440,7 @@ def diff_script(lines, driver, repo='/repo', state=None):
     for l, outs in py:
         seg = lean[pos:pos + len(outs)]
         if seg != outs:
-            return dict(op_index=k, op=l, python=outs, lean=seg, script=lines[:k + 1])
+            return dict(op_index=k, op=l, python=outs, lean=seg, script=lines[:k + 1][-40:], full_script=lines[:k + 1])
         pos += len(outs)
         k += 1
-    return dict(op_index=len(py), op='<end>', python=[], lean=lean[pos:], script=lines)
+    return dict(op_index=len(py), op='<end>', python=[], lean=lean[pos:], script=lines[-40:], full_script=list(lines))
